@@ -474,6 +474,11 @@ def rule_r8(facts, col):
 
 def run(ctx):
     facts = ctx.facts("default")
+    from . import c18, c19 as _c19
+    # both halves of the double mapping show the SAME memory only if both are MAP_SHARED (seed s10-c01: a private mirror half
+    # detaches on the first store through it) - same rule as C18.R6
+    c18.rule_r6(facts, _c19._Retag(ctx, "C18.R6", "C01.R9"))
+    ctx.floor("C01.R9", 1, "mmap flag sets of Map::with_addr (same rule as C18.R6)")
     ctx.anchor("C01", STATE_ADT in facts.adts and BUFFER_ADT in facts.adts, "circular_buffer::{BufferState,Buffer}")
     rule_r1(facts, ctx)
     rule_r2(facts, ctx)
